@@ -315,6 +315,76 @@ def tf_import_style(root):
     _rewrite_all(root, _ImportStyle)
 
 
+def _leftmost(e):
+    while True:
+        if isinstance(e, ast.BoolOp):
+            e = e.values[0]
+        elif isinstance(e, ast.Compare):
+            e = e.left
+        elif isinstance(e, ast.UnaryOp):
+            e = e.operand
+        else:
+            return e
+
+
+def _chain_depth(e):
+    d = 0
+    while isinstance(e, (ast.Attribute, ast.Subscript)):
+        if isinstance(e, ast.Subscript) and not isinstance(e.slice, (ast.Name, ast.Constant)):
+            return -1
+        d += 1
+        e = e.value
+    return d if isinstance(e, ast.Name) else -1
+
+
+class _ExtractVariable(ast.NodeTransformer):
+    """`if a.b.c == x:` -> `tmpxN = a.b.c` / `if tmpxN == x:` (leftmost operand of the test, attribute chains of depth >= 2)."""
+
+    def __init__(self):
+        self.k = 0
+
+    def _fix(self, body):
+        out = []
+        for s in body:
+            if isinstance(s, ast.If):
+                lm = _leftmost(s.test)
+                if _chain_depth(lm) >= 2:
+                    self.k += 1
+                    nm = 'tmpx%d' % self.k
+                    out.append(ast.Assign(targets=[ast.Name(id=nm, ctx=ast.Store())],
+                                          value=ast.parse(ast.unparse(lm), mode='eval').body, lineno=s.lineno))
+                    lm.__class__ = ast.Name
+                    lm.__dict__.clear()
+                    lm.__dict__.update({'id': nm, 'ctx': ast.Load()})
+            out.append(s)
+        return out
+
+    def generic_visit(self, node):
+        super().generic_visit(node)
+        for f in ('body', 'orelse', 'finalbody'):
+            b = getattr(node, f, None)
+            if isinstance(b, list) and b and isinstance(b[0], ast.stmt):
+                if f == 'orelse' and isinstance(node, ast.If) and len(b) == 1 and isinstance(b[0], ast.If):
+                    continue
+                setattr(node, f, self._fix(b))
+        return node
+
+
+def tf_extract_variable(root):
+    for d, ds, fs in os.walk(root):
+        for f in fs:
+            if f.endswith('.py'):
+                p = os.path.join(d, f)
+                with open(p) as fh:
+                    tree = ast.parse(fh.read())
+                for n in ast.walk(tree):
+                    if isinstance(n, ast.FunctionDef):
+                        _ExtractVariable().visit(n)
+                ast.fix_missing_locations(tree)
+                with open(p, 'w') as fh:
+                    fh.write(ast.unparse(tree) + '\n')
+
+
 class _AddLog(ast.NodeTransformer):
     def visit_If(self, node):
         self.generic_visit(node)
@@ -365,6 +435,7 @@ T('S-no-else-after-jump', tf_no_else_after_jump)
 T('S-split-if', tf_split_if)
 T('S-update-to-setitem', tf_update_to_setitem)
 T('S-import-style', tf_import_style)
+T('S-extract-variable', tf_extract_variable)
 T('S-add-log', tf_add_log)
 T('S-respell', tf_respell_literals)
 
